@@ -100,10 +100,14 @@ def _gen_once(r, force_2d):
             v = r.random()
             if v < 0.6:
                 ops.append(['set_pva', _rand_pva(r, wd)])
-            elif v < 0.85:
+            elif v < 0.8:
                 ops.append(['fix_position', [_f(x) for x in r.uniform(-3, 3, 5)]])
-            else:
+            elif v < 0.9:
                 ops.append(['set_pva_roundtrip'])
+            elif v < 0.95:
+                ops.append(['set_pva_scribble', _rand_pva(r, wd)])
+            else:
+                ops.append(['get_pva_scribble'])
     if left > 0 and r.random() < 0.7:
         ops.append(['integrate', int(left)])
     sc = dict(format=1, kind='history', world=wd,
@@ -336,10 +340,24 @@ def execute(sc, want='C02'):
                     if float(ret) != t_index[-1]:
                         v02.append(V('get', f"get_time()={float(ret)!r}, expected "
                                             f"{t_index[-1]!r}"))
-                elif name in ('set_pva', 'fix_position', 'set_pva_roundtrip'):
+                elif name == 'get_pva_scribble':
+                    # the caller edits, in place, the Series it was handed by get_pva: its
+                    # own object now - the integrator's state must not follow
+                    q = it.get_pva()
+                    try:
+                        q.iloc[:] = q.to_numpy() + 1.0
+                    except ValueError:
+                        pass                     # a read-only result is fine too
+                    ret = it.get_pva()
+                    log.append(ret)
+                    if not row_ok(ret.to_numpy(), held - 1):
+                        v02.append(V('get', "editing the Series returned by get_pva in "
+                                            "place changed the integrator's latest state"))
+                elif name in ('set_pva', 'fix_position', 'set_pva_roundtrip',
+                              'set_pva_scribble'):
                     stats['set_pva'] += 1
                     t = t_index[-1]
-                    if name == 'set_pva':
+                    if name in ('set_pva', 'set_pva_scribble'):
                         p = _pva_series(op[1], t)
                     else:
                         # a user reads the state, edits position/velocity only and writes
@@ -368,6 +386,9 @@ def execute(sc, want='C02'):
                         vd_alt.pop(held - 1, None)
                     model.start_segment(p_copy, model.applied)
                     alt_ref = float(p_copy['alt'])
+                    if name == 'set_pva_scribble':
+                        # the caller re-uses its own Series after the call
+                        p.iloc[:] = p.to_numpy() * 0.5 + 7.0
                 else:
                     raise ValueError(name)
                 if observe and not v02:
@@ -395,7 +416,8 @@ def execute(sc, want='C02'):
                     'L' if kk < 100 else 'X'
             code = {'integrate': 'i', 'predict': 'p', 'predict_scaled': 'q', 'get_pva': 'g',
                     'get_time': 't', 'set_pva': 's', 'fix_position': 'f',
-                    'set_pva_roundtrip': 'r'}[name]
+                    'set_pva_roundtrip': 'r', 'set_pva_scribble': 'S',
+                    'get_pva_scribble': 'G'}[name]
             sig.append(f"{code}{csize}{'^' if grew else ''}")
             if v02 and want == 'C02':
                 break
